@@ -258,8 +258,8 @@ def explore(ctx):
         if sexp.dumps(r) != mcanon[qi]:
             failures.append({'kind': 'corr', 'what': 'the grammar model reads two spellings of one query differently',
                              'payload': {'query': q2, 'canonical_spelling': base[qi][0]}})
-    # spellings written by the EXTRACTED Coq printer (Print.v): the printer of the round-trip theorems
-    # (C04_query_roundtrip / C20_query_spellings_agree) is the printer of this test, so the theorem's
+    # spellings written by the EXTRACTED Coq printer (Print.v / PrintSyn.v, with synonym and default choices): the
+    # printer of the round-trip theorems (C04_query_roundtrip / C20_query_roundtrip_with_synonyms) is the printer of this test, so the theorem's
     # statement is exercised against the real parser, not only against its transcription
     WS0 = ['', ' ', '  ', '\t', '\n ']
     WS1 = [' ', '  ', '\t', ' \n ', '\n']
@@ -268,7 +268,9 @@ def explore(ctx):
         for k in range(2 if quick else 6):
             flags = [Sym('true') if rng.random() < 0.5 else Sym('false') for _ in range(4)]
             try:
-                ppjobs.append((qi, sexp.dumps([Sym('pp'), rng.choice(WS0), rng.choice(WS1), flags, qast.filter_sexp(STAR), [qast.stage_sexp(st) for st in stages]])))
+                sos = [rng.randrange(4), rng.randrange(3), rng.randrange(3), rng.randrange(3), Sym(rng.choice(['true', 'false'])), rng.randrange(3),
+                       Sym(rng.choice(['true', 'false'])), Sym(rng.choice(['true', 'false'])), Sym(rng.choice(['true', 'false']))]
+                ppjobs.append((qi, sexp.dumps([Sym('pps'), rng.choice(WS0), rng.choice(WS1), flags, sos, qast.filter_sexp(STAR), [qast.stage_sexp(st) for st in stages]])))
             except (ValueError, TypeError):
                 pass
     ppres = aglib.run_model_many([j[1] for j in ppjobs])
